@@ -75,11 +75,26 @@ def B.isIntLeaf : B → Bool
   | .leaf _ (.int _) _ _ => true
   | _ => false
 
+/-- value builders of a dictionary that refuse `serialize_str` (every builder but the string builders, the builders
+that parse strings — dates, times, timestamps, durations, decimals — and a nested dictionary): a dictionary with such
+a value builder never holds a value, every non-null push into it fails. -/
+def B.refusesStr : B → Bool
+  | .leaf _ k _ _ =>
+    match k with
+    | .bool | .int _ | .f16 | .f32 | .f64 => true
+    | _ => false
+  | .bytes _ ty _ _ _ => !isUtf8Ty ty
+  | .bytesView _ ty _ _ _ => !(ty == .utf8View)
+  | .dictionary _ _ _ _ => false
+  | _ => true
+
 /-- values decoded = index entries: when the value builder of a dictionary is a Utf8 / LargeUtf8 builder, the
-values it holds are exactly the strings of the index, in insertion order (`values[index[s]] = s`).  Other value
+values it holds are exactly the strings of the index, in insertion order (`values[index[s]] = s`); when the value
+builder refuses strings the index is empty (an entry is made only after `values.serialize_str` succeeded).  Other value
 builders (`build_builder` accepts any type, e.g. `Dictionary(Int8, Date32)` stores parsed dates) are not constrained. -/
 def DictVals (vals : B) (index : List String) : Prop :=
-  vals.isUtf8B = true → dec vals = index.map fun s => LVal.str (strBytes s)
+  (vals.isUtf8B = true → dec vals = index.map fun s => LVal.str (strBytes s)) ∧
+  (vals.refusesStr = true → index = [])
 
 mutual
 def WFB : B → Prop
